@@ -607,6 +607,25 @@ func c05LocCases() []*c05Case {
 }
 
 // ---------------------------------------------------------------------------------------------
+// names of the universe scope: no package DECLARES an interface named error, any or comparable, so
+// naming one (with or without a qualifier) is IMPL02 whatever methods the type has
+
+func c05UniverseCases() []*c05Case {
+	var out []*c05Case
+	for _, name := range []string{"error", "any", "comparable"} {
+		for _, qual := range []string{"", "a", "al"} {
+			for _, amp := range []bool{false, true} {
+				for _, meth := range []struct{ n, pre string }{{"none", ""}, {"Error", "func (T§) Error() string { return \"\" }\n"}} {
+					out = append(out, &c05Case{Fam: "universe", Coord: fmt.Sprintf("name=%s|qual=%s|amp=%s|methods=%s", name, qual, c05B(amp), meth.n), Cause: "-",
+						FileKey: "default", Imports: c05DefaultImports, Pre: meth.pre, TypeDecl: "type T§ struct{}", Anns: []c05Ann{{Amp: amp, Qual: qual, Name: name}}})
+				}
+			}
+		}
+	}
+	return out
+}
+
+// ---------------------------------------------------------------------------------------------
 // several @implements lines on one type
 
 func c05MultiCases(thorough bool) []*c05Case {
